@@ -430,6 +430,11 @@ impl<'a> Ctx<'a> {
             Some(s) => { self.h.log.push(format!("{} -> status {}", what, s as u8)); Some((s, out.result)) }
             None => {
                 self.h.log.push(format!("{} -> no receipt: {}", what, out.result));
+                for i in 0..sim::SIGNERS {
+                    let r = self.run.inst.rpc("eth_getTransactionCount", json!([format!("{:?}", sim::signer_address(i)), "latest"]));
+                    let p = self.run.inst.rpc("txpool_contentFrom", json!([format!("{:?}", sim::signer_address(i))]));
+                    self.h.log.push(format!("   signer {}: engine nonce {:?}, harness nonce {}, pool {:?}", i, r, self.nonces[i], p.map(|v| v.to_string())));
+                }
                 self.h.aborted = Some(format!("{} returned no single receipt: {}", what, out.result));
                 None
             }
@@ -739,9 +744,11 @@ impl<'a> Ctx<'a> {
     fn garbage_calldata(&mut self, on_ctl: bool) -> Vec<u8> {
         match self.rng.below(4) {
             0 => abi("steal(address)", &[Arg::A(self.stray)]),
-            1 => { // truncated arguments
+            1 => { // truncated arguments.  (Dropping only the zero padding behind a `bytes` argument leaves valid
+                   // calldata - the decoder checks offset + length against calldatasize, not the padding - so for the
+                   // controller the cut starts inside the 4 ticker bytes: 28 bytes of padding + at least 1.)
                 let mut d = if on_ctl { abi("transfer(bytes,address,uint256)", &[Arg::B(b"ordi".to_vec()), Arg::A(self.stray), Arg::U(U256::from(1))]) } else { abi("transfer(address,uint256)", &[Arg::A(self.stray), Arg::U(U256::from(1))]) };
-                let n = d.len(); d.truncate(n - 1 - self.rng.below(40) as usize); d
+                let n = d.len(); d.truncate(n - if on_ctl { 29 } else { 1 } - self.rng.below(40) as usize); d
             }
             2 => { // an address argument with dirty high bits
                 let mut d = if on_ctl { abi("transferOwnership(address)", &[Arg::A(self.stray)]) } else { abi("approve(address,uint256)", &[Arg::A(self.stray), Arg::U(U256::from(1))]) };
@@ -939,7 +946,7 @@ fn run_history(id: u64, rng: &mut Rng, blocks: u64) -> (Hist, Address, Address) 
     // the indexer address is the crate's constant; the controller's address is where the engine
     // says it deployed it (brc20_initialise), which must be the indexer's first CREATE
     let indexer: Address = *brc20_prog::verif_hooks::INDEXER_ADDRESS;
-    let mut ctl = indexer.create(0);
+    let ctl = indexer.create(0);
     let mut fams: Vec<usize> = Vec::new();
     let nf = rng.range(2, 4) as usize;
     while fams.len() < nf { let f = rng.below(FAMILIES.len() as u64) as usize; if !fams.contains(&f) { fams.push(f); } }
@@ -958,7 +965,6 @@ fn run_history(id: u64, rng: &mut Rng, blocks: u64) -> (Hist, Address, Address) 
         Some(a) if Hx::from_hex(a).to_address() == ctl => {}
         other => { c.h.aborted = Some(format!("the controller is not at the indexer's first CREATE address: {:?}", other)); return (c.h, ctl, indexer); }
     }
-    ctl = c.ctl;
     c.snaps.push(Snap { rf: c.rf.clone(), nonces: c.nonces });
     c.block_ts += 600;
     for i in 0..2 {
@@ -1092,6 +1098,7 @@ pub fn run(out: &Path, seed: u64, thorough: bool) -> Result<(), Box<dyn std::err
     let t0 = std::time::Instant::now();
     let mut rng = Rng::new(seed);
     let (histories, blocks, budget_s) = if thorough { (400u64, 40u64, 900u64) } else { (60, 18, 75) };
+    let histories = std::env::var("C07_HIST").ok().and_then(|s| s.parse().ok()).unwrap_or(histories);
     let ctl = brc20_prog::verif_hooks::INDEXER_ADDRESS.create(0);
     let addrs: Vec<Address> = (1..=48u64).map(|n| ctl.create(n)).collect();
     let mut terms = Vec::new();
@@ -1158,8 +1165,13 @@ pub fn probe() -> Result<(), Box<dyn std::error::Error>> {
     }
     // one random history, printed
     let t0 = std::time::Instant::now();
-    let mut rng = Rng::new(7);
-    let (h, _, _) = run_history(0, &mut rng, 12);
+    let seed: u64 = std::env::var("C07_SEED").ok().and_then(|s| s.parse().ok()).unwrap_or(7);
+    let id: u64 = std::env::var("C07_ID").ok().and_then(|s| s.parse().ok()).unwrap_or(0);
+    let blocks: u64 = std::env::var("C07_BLOCKS").ok().and_then(|s| s.parse().ok()).unwrap_or(12);
+    let mut top = Rng::new(seed);
+    let mut rng = top.fork();
+    for _ in 0..id { rng = top.fork(); }
+    let (h, _, _) = run_history(id, &mut rng, blocks);
     for l in &h.log { println!("{}", l); }
     println!("items {} txs {} reads {} aborted {:?} failures {}", h.items.len(), h.txs, h.reads, h.aborted, h.failures.len());
     for f in &h.failures { println!("{}", f); }
